@@ -403,6 +403,10 @@ def gen_world(rng, kind):
         w[DATES[1]] = dict(base, kind='uniform', has_time=bool(rng.random() < 0.5), u=u2, v=v2, phi=phi)
     elif kind == 'linear':
         for d in DATES:
+            if d != DATES[0] and rng.random() < 0.5:
+                # the second daily file covers another domain (other pressure levels / latitudes / longitudes)
+                ps2, lats2, lons2 = gen_axes(rng)
+                base = {'ps': ps2, 'lats': lats2, 'lons': lons2}
             w[d] = dict(base, kind='linear', has_time=bool(rng.random() < 0.4),
                         cu=[float(rng.uniform(-20, 20)), float(rng.uniform(-0.05, 0.05)), float(rng.uniform(-1, 1)), float(rng.uniform(-1, 1))],
                         cv=[float(rng.uniform(-20, 20)), float(rng.uniform(-0.05, 0.05)), float(rng.uniform(-1, 1)), float(rng.uniform(-1, 1))],
@@ -413,6 +417,9 @@ def gen_world(rng, kind):
                 w[d]['p_independent'] = True
     else:
         for d in DATES:
+            if d != DATES[0] and rng.random() < 0.5:
+                ps2, lats2, lons2 = gen_axes(rng)
+                base = {'ps': ps2, 'lats': lats2, 'lons': lons2}
             vz = bool(rng.random() < 0.5)
             w[d] = dict(base, kind='random', has_time=bool(rng.random() < 0.4), seed=int(rng.integers(0, 2 ** 31)),
                         lo=(0.0 if vz else -60.0), hi=60.0, v_zero=vz)
@@ -441,6 +448,16 @@ def gen_queries(rng, world, n):
              'lat': float(rng.uniform(la_lo, la_hi)), 'lon': float(rng.uniform(lo_lo, lo_hi)),
              'alt': alt_for_levels(rng, spec['ps']), 'tas': float(rng.choice([0.0, 60.0, 150.0, 200.0, 251.5, float(rng.uniform(1, 300))])),
              'hdg': float(rng.uniform(0, 360)), 'via': 'point' if rng.random() < 0.5 else 'arg', 'other_az': float(rng.uniform(0, 360))}
+        other = world[DATES[1] if date == DATES[0] else DATES[0]]
+        if (other['lats'] != spec['lats'] or other['lons'] != spec['lons'] or other['ps'] != spec['ps']) and rng.random() < 0.25:
+            # a point chosen inside the OTHER day's domain (it may be inside or outside this day's): what counts is the file of the day asked for
+            q['lat'] = float(rng.uniform(min(other['lats']), max(other['lats'])))
+            q['lon'] = float(rng.uniform(min(other['lons']), max(other['lons'])))
+            q['alt'] = alt_for_levels(rng, other['ps'])
+            q['tas'] = 0.0
+            q['tag'] = 'probe'
+            qs.append(q)
+            continue
         if qs and rng.random() < 0.18:
             # the same point and altitude as an earlier query of this Weather object, same day, another hour
             # (and sometimes another day): the answer must depend on the time asked for, not on what was asked before
